@@ -47,6 +47,12 @@ def run_case(case):
         return {"outcome": "setup:" + type(ctx.setup_error).__name__, "key": None, "violations": [], "stats": {}}
     viol = M.mon_c12(ctx.rec, ctx.F, ctx.weights, ctx.params, case["spec"]["x0"], case["spec"].get("y0"),
                      case["cfg"].get("penalty") in FILTERS)
+    from pgfmc.drive import run as R
+    if ctx.rec.result is not None:
+        rec2 = R.run_solve(ctx.rec.solver.orig_problem, ctx.params, case["spec"]["x0"], case["spec"].get("y0"), solver=ctx.rec.solver)
+        for v in M.mon_c12(rec2, ctx.F, ctx.weights, ctx.params, case["spec"]["x0"], case["spec"].get("y0"),
+                           case["cfg"].get("penalty") in FILTERS):
+            viol.append(dict(v, sig=v["sig"].replace("C12|", "C12|second_solve|")))
     import numpy as np
     global _PREV
     if _PREV is not None:
